@@ -52,7 +52,7 @@ func (c *c10World) block(dt int64) {
 	supplyBefore := TotalSupply(c.w.App, bctx)
 	var pan interface{}
 	func() {
-		defer func() { pan = recover() }()
+		defer func() { pan = notRapid(recover()) }()
 		if c.integrated {
 			hdr := c.w.header(nsTime(c.now))
 			hdr.Height = c.height
